@@ -43,7 +43,11 @@ for toks in QUICK_SHAPES + ALL:
         time_limit_s=900 if q else 3000, max_paths=400000,
         bounds="event sequence fixed, every field value, right/wrong announcements, rollup ids 1..3, zero/unchanged/new exit roots"))
 REACH_NOTE = "vacuity: every obligation must discharge at least one assertion; per-shape witnesses are not required"
-ASSUMPTIONS = ["Keccak as uninterpreted function + collision-freeness for store keys", "SQL model of SQLite",
+OBLIGATIONS.append(dict(
+    name="C11.d (known finding C11-1) a rollup's exit root goes A, B, A: the update that brings the rollup exit tree back to an already recorded root must be recorded",
+    harness=L + "ZZVerif_C11_ExitRootRevert", known_finding="C11-1", bounds="rollup 1, any distinct non-zero A and B"))
+ASSUMPTIONS = ["verified exit roots are fresh: the rollup exit tree never returns to a root it has recorded before (outside this assumption: known finding C11-1)",
+               "Keccak as uninterpreted function + collision-freeness for store keys", "SQL model of SQLite",
                "the L1 contract never emits the same global exit root twice (UNIQUE column) and announces roots only after a leaf exists",
                "reference = transliteration of DepositContractBase and of the rollup manager's getRollupExitRoot over 4 rollups"]
 OUTSIDE = "generated log parsers; RollupID = 0; InitL1InfoRootMap events"
